@@ -103,6 +103,8 @@ inline WConfig gen_config(bool many_blocks = false, bool allow_pool = true) {
   } else {
     c.block_size_set = !chance(10);
     c.block_size = one_of<long long>({1, 1024, 1024, 1025, 1500, 4096, 8192, 65536, 262144});  // 256 KiB: several > 64 KiB entries per block
+    // "never cut a block": sizes far beyond any table (the option is a size_t without an upper bound; the trailer records it)
+    if (chance(4)) c.block_size = one_of<long long>({1ll << 32, (1ll << 48) + 12345, 0x7fffffffffffffffll, 0x0123456789abcdefll});
   }
   c.restart = one_of<int>({1, 2, 3, 4, 7, 16, 16, 1000});
   if (allow_pool && chance(25)) c.pool = one_of<int>({0, 1, 2, 4, 8});
